@@ -811,3 +811,90 @@ vk_harness!(c17_input_string_field, {
     core::mem::forget(r);
     core::mem::forget(got);
 });
+
+// ---------------------------------------------------------------------------------------------------------------
+// C10: calling and defining user functions, one VM step each
+
+//@ prop: C10
+//@ tier: quick
+//@ unwind: 12
+//@ encodes: Runtime::r#fn; RuntimeStackTrait::pop_vec; Stack::pop_n
+//@ bounds: function table with FNA of symbolic arity 0..=2 at a symbolic address; call of FNA or of the undefined FNB with 2 symbolic Integer arguments; one value below them on the stack
+vk_harness!(c10_call_step, {
+    let mut r = Runtime::default();
+    let arity = vk::any_below(3) as usize;
+    let addr = vk::any_u16() as usize;
+    r.functions.insert("FNA".into(), (arity, addr));
+    let nargs = 2usize; // two arguments on the stack (concrete shape), arity of the callee symbolic
+    let defined = vk::any_bool();
+    let pc0 = vk::any_u16() as usize;
+    r.pc = pc0;
+    r.stack.push(Val::Integer(77)).unwrap();
+    let (a0, a1) = (vk::any_i16(), vk::any_i16());
+    if nargs >= 1 {
+        r.stack.push(Val::Integer(a0)).unwrap();
+    }
+    if nargs >= 2 {
+        r.stack.push(Val::Integer(a1)).unwrap();
+    }
+    r.stack.push(Val::Integer(nargs as i16)).unwrap();
+    let got = r.r#fn(if defined { "FNA".into() } else { "FNB".into() });
+    if !defined {
+        match got {
+            Err(e) => vk_check!(ec::code_of(&e) == 18, "C10: calling an undefined function is UNDEFINED USER FUNCTION"),
+            Ok(()) => vk_check!(false, "C10: an undefined function was called"),
+        }
+    } else if nargs != arity {
+        match got {
+            Err(e) => vk_check!(ec::code_of(&e) == ec::ILLEGAL_FUNCTION_CALL, "C10: a wrong argument count is ILLEGAL FUNCTION CALL"),
+            Ok(()) => vk_check!(false, "C10: a call with the wrong number of arguments was accepted"),
+        }
+    } else {
+        vk_check!(got.is_ok(), "C10: a call with the right number of arguments must succeed");
+        vk_check!(r.pc == addr, "C10: the call continues at the function body");
+        // return address under the arguments; arguments in reverse so that the body pops the first parameter first
+        vk_check!(r.stack.len() == 2 + nargs, "C10: the call leaves the return address and exactly the arguments");
+        vk_check!(matches!(r.stack.get(1), Some(Val::Return(p)) if *p == pc0), "C10: the return address is the instruction after the call");
+        if nargs == 2 {
+            vk_check!(matches!(r.stack.get(2), Some(Val::Integer(x)) if *x == a1), "C10: the last argument is deepest");
+            vk_check!(matches!(r.stack.get(3), Some(Val::Integer(x)) if *x == a0), "C10: the first argument is on top");
+        }
+        if nargs == 1 {
+            vk_check!(matches!(r.stack.get(2), Some(Val::Integer(x)) if *x == a0), "C10: the argument is on top");
+        }
+    }
+    vk_cover!(defined && nargs == arity && nargs == 2, "reach: two-argument call");
+    vk_cover!(defined && nargs != arity, "reach: wrong arity");
+    core::mem::forget(r);
+});
+
+//@ prop: C10
+//@ tier: quick
+//@ unwind: 12
+//@ encodes: Runtime::r#def
+//@ bounds: DEF executed at a symbolic pc inside the program or in direct mode; parameter count 0..=3; function table empty before
+vk_harness!(c10_def_step, {
+    let mut r = Runtime::default();
+    let (pc0, entry) = (vk::any_u16() as usize, vk::any_u16() as usize);
+    r.pc = pc0;
+    r.entry_address = entry;
+    let n = vk::any_below(4) as i16;
+    r.stack.push(Val::Integer(n)).unwrap();
+    let got = r.r#def("FNA".into());
+    if pc0 >= entry {
+        match got {
+            Err(e) => vk_check!(ec::code_of(&e) == 12, "C10: DEF in direct mode is ILLEGAL DIRECT"),
+            Ok(()) => vk_check!(false, "C10: DEF was accepted in direct mode"),
+        }
+        vk_check!(r.functions.len() == 0, "C10: a refused DEF defines nothing");
+    } else {
+        vk_check!(got.is_ok(), "C10: DEF inside a program succeeds");
+        match r.functions.get("FNA") {
+            Some((arity, addr)) => vk_check!(*arity == n as usize && *addr == pc0 + 1, "C10: DEF records the parameter count and the body address (after the skip jump)"),
+            None => vk_check!(false, "C10: DEF did not define the function"),
+        }
+    }
+    vk_cover!(pc0 < entry, "reach: def in program");
+    vk_cover!(pc0 >= entry, "reach: def in direct mode");
+    core::mem::forget(r);
+});
